@@ -849,6 +849,10 @@ def negTree : OpTree → OpTree
 def mkReverse (op : Op) (r : Raw) (t : OpTree) : R OpTree :=
   match op with
   | .add => .ok (.bin .add t r.wrap)
+  | .pow =>
+      match r with
+      | .sp _ => .error .unsupported          -- scipy's own `**` raises before python tries `__rpow__`
+      | _ => .ok (.bin .pow r.wrap t)
   | o => .ok (.bin o r.wrap t)
 
 def build : PyExpr → R Built
